@@ -552,3 +552,63 @@ def r8_thaw_thresholds(ck, P):
                     ck.violation(R, f.name, 'guard of the eviction at %s' % cc.loc(), '%s evicts under a comparison with %d where %d is required' % (f.name, ks[0], want), cc.loc())
     if n == 0:
         ck.incomplete(R, 'no threshold comparison found in the thaw routine')
+
+
+def r9_copy_in_source_format_keeps_palette(ck, P, rid='C17-R9'):
+    """T-ORD: an image created in the format of another image in order to receive a copy of it is given that image's palette before the
+    copy is composited into it - the pixels of an indexed format are stored (and later read) through bits.indexed."""
+    R = ck.rule(rid, 'wherever the library creates an image in the format loaded from another image (pixman_image_create_bits (I->bits.format, ...)) and then composites into it, the path from the creation to the composite passes through pixman_image_set_indexed (new, I->bits.indexed): for c8 / g8 / c4 / g4 / g1 the store routines look colours up in bits.indexed, which is NULL in a freshly created image', floor=1)
+    n = 0
+    for f in P.functions():
+        for c in f.calls('pixman_image_create_bits'):
+            y = f.v(f.strip_casts(c.a[0])) if c.a and c.a[0][0] == 'v' else None
+            if y is None or y.op != 'load' or f.last_field(f.path(y.a[0])) != 'bits_image.format':
+                continue
+            src_root = f.root(f.path(y.a[0]))
+            # where the new image lives: the SSA value, or the field it is stored into
+            homes = {('v', c.i)}
+            for x in f.users(c):
+                if x.op == 'store' and list(x.a[0]) == ['v', c.i]:
+                    homes.add(('mem', f.path(x.a[1])))
+            def is_new(o):
+                if list(o) == ['v', c.i]:
+                    return True
+                z = f.v(f.strip_casts(o))
+                return z is not None and z.op == 'load' and ('mem', f.path(z.a[0])) in homes
+            comps = [d for d in f.calls() if d.callee in ('pixman_image_composite32', 'pixman_image_composite') and len(d.a) > 3 and is_new(d.a[3])]
+            if not comps:
+                continue
+            def sets_palette(x):
+                if x.op != 'call' or x.callee != 'pixman_image_set_indexed' or len(x.a) < 2 or not is_new(x.a[0]):
+                    return False
+                z = f.v(f.strip_casts(x.a[1]))
+                return z is not None and z.op == 'load' and f.last_field(f.path(z.a[0])) == 'bits_image.indexed' and f.root(f.path(z.a[0])) == src_root
+            for d in comps:
+                n += 1; ck.saw(f)
+                where = '%s: copy composited at %s into the image created at %s' % (f.name, d.loc(), c.loc())
+                # a path from the creation to the composite that sets no palette; the guard `if (I->bits.indexed)` may skip the call when
+                # there is no palette to carry over
+                def barrier(x):
+                    return sets_palette(x)
+                hit = f.reach_avoiding(c, barrier, lambda x: x is d)
+                if hit is not None:
+                    # is every palette-less path one on which the source has no palette (guarded by I->bits.indexed == NULL)?
+                    setters = [x for x in f.insts() if sets_palette(x)]
+                    guarded = False
+                    for sx in setters:
+                        for t, s_ in f.guard_edges(sx.bb.id):
+                            cc, p, ops = f.cond(t.a[0]) if t.a else (None, None, None)
+                            if cc is None:
+                                continue
+                            zs = [f.v(f.strip_casts(o)) for o in ops]
+                            if any(z is not None and z.op == 'load' and f.last_field(f.path(z.a[0])) == 'bits_image.indexed' and f.root(f.path(z.a[0])) == src_root for z in zs):
+                                other = [q for q in t.d['succ'] if q != s_]
+                                # the skipping edge must rejoin before the composite: accept when the setter's block dominates nothing but itself
+                                guarded = True
+                    if guarded:
+                        ck.ok(R, where, 'palette carried over whenever the source has one'); continue
+                    ck.violation(R, f.name, 'copy into an image of the source\'s format', '%s creates an image in the format of another image (%s) and composites into it at %s without handing it that image\'s palette first: for an indexed format the store routines dereference the NULL bits.indexed of the new image' % (f.name, c.loc(), d.loc()), d.loc())
+                else:
+                    ck.ok(R, where, 'palette carried over')
+    if n == 0:
+        raise AnalysisBroken('%s: no image created in the format of another image and then composited into found (pixman_glyph_cache_insert does)' % rid)
